@@ -149,6 +149,31 @@ GUARD_REQS = {
 }
 
 
+def planning_roles(repo):
+    """Names of the request-planning locals, found by what they are assigned from / used for."""
+    from ..pattern import find as pfind, local_defined_as
+    gc = repo.func("Context.get_components", CONTEXT)
+    cc = repo.func("Context.get_components.check_cache", CONTEXT)
+    r = {}
+    ld = [(n, b) for n, b in pfind(cc.node, "L_ld = self._get_partial_loader_for(L_key, time_range=time_range, **___)")]
+    r["LOADER"] = ld[0][1]["L_ld"] if ld else None
+    isr, _a, _b = local_defined_as(gc.node, "run_id.startswith('_')")
+    r["IS_SUPERRUN"] = isr
+    pc = [c for c in calls_in(gc.node) if (call_name(c) or "").endswith("ProcessorComponents")]
+    if pc:
+        r["LOADERS"] = norm(kw(pc[0], "loaders")) if kw(pc[0], "loaders") is not None else None
+        r["SAVERS"] = norm(kw(pc[0], "savers")) if kw(pc[0], "savers") is not None else None
+        plug = kw(pc[0], "plugins")
+        if isinstance(plug, ast.Name):
+            r["PLUGINS"] = plug.id
+            tc = [b for n, b in pfind(gc.node, f"{plug.id} = L_tc")]
+            # the last rebinding before the return: plugins = to_compute
+            r["TO_COMPUTE"] = tc[-1]["L_tc"] if tc else None
+    seen = [b for n, b in pfind(cc.node, "L_seen.add(target_i)")]
+    r["SEEN"] = seen[0]["L_seen"] if seen else None
+    return r
+
+
 def saver_guards(chk, repo, rule="C11.R2", only=None):
     chk.describe(rule, "every saver created while assembling a request is dominated by the no-save guards (negative edge) and by the positive save-policy test")
     f = repo.func("Context.get_components.check_cache", CONTEXT)
@@ -156,9 +181,14 @@ def saver_guards(chk, repo, rule="C11.R2", only=None):
     defs = Defs(f.node)
     sites = [n for n in cfg.stmt_nodes() if not isinstance(n.stmt, COMPOUND) and node_calls(n, lambda c, nm: nm.split(".")[-1] in ("_add_saver", "saver", "_saver"))]
     chk.floor(rule, "saver-creating calls in check_cache", len(sites), 1)
+    R = planning_roles(repo)
+    chk.need(R.get("LOADER") and R.get("IS_SUPERRUN"), f"{rule}: cannot identify the loader / superrun locals of get_components ({R})")
+    reqs = dict(GUARD_REQS)
+    reqs["loader"] = (False, {R["LOADER"]}, GUARD_REQS["loader"][2])
+    reqs["superrun"] = (False, {R["IS_SUPERRUN"], "str:write_superruns"}, GUARD_REQS["superrun"][2])
     for s in sites:
         lits = cfg.guard_literals(s)
-        for name, (pol, need, why) in GUARD_REQS.items():
+        for name, (pol, need, why) in reqs.items():
             if only is not None and name not in only:
                 continue
             hit = False
@@ -192,28 +222,37 @@ def r3_r4_scheduling(chk, repo):
     chk.describe("C11.R4", "forbid_creation_of and the time-range availability error are raised before anything is scheduled")
     f = repo.func("Context.get_components.check_cache", CONTEXT)
     cfg = cfg_of(f)
-    stores = [n for n in cfg.stmt_nodes() if isinstance(n.stmt, ast.Assign) and any(isinstance(t, ast.Subscript) and norm(t.value) == "to_compute" for t in n.stmt.targets)]
+    R = planning_roles(repo)
+    chk.need(all(R.get(k) for k in ("LOADER", "TO_COMPUTE", "LOADERS", "PLUGINS", "SEEN")), f"C11.R3: cannot identify the planning locals of get_components ({R})")
+    LD, TC, LDS, PL, SEEN = R["LOADER"], R["TO_COMPUTE"], R["LOADERS"], R["PLUGINS"], R["SEEN"]
+    stores = [n for n in cfg.stmt_nodes() if isinstance(n.stmt, ast.Assign) and any(isinstance(t, ast.Subscript) and norm(t.value) == TC for t in n.stmt.targets)]
     rec = [n for n in cfg.stmt_nodes() if not isinstance(n.stmt, COMPOUND) and node_calls(n, lambda c, nm: nm == "check_cache")]
     chk.floor("C11.R3", "to_compute stores", len(stores), 1)
     chk.floor("C11.R3", "dependency recursion sites", len(rec), 1)
     for n in stores + rec:
         facts = cfg.guard_facts(n)
-        chk.check(("loader", False) in facts, "C11.R3", f, n.stmt, "plugin scheduled / dependencies visited although the data can be loaded: stored data would be recomputed", site_text=f"check_cache: `{head(n.stmt, 50)}` only if not loader")
+        chk.check((LD, False) in facts, "C11.R3", f, n.stmt, "plugin scheduled / dependencies visited although the data can be loaded: stored data would be recomputed", site_text=f"check_cache: `{head(n.stmt, 50)}` only if not loader")
     # recursion over depends_on
     for n in rec:
         lp = enclosing(n.stmt, (ast.For,))
         chk.check(lp is not None and "depends_on" in norm(lp.iter), "C11.R3", f, n.stmt, "dependencies are not all visited", site_text="check_cache: recursion over target_plugin.depends_on")
     # loader branch
-    lb = [n for n in cfg.stmt_nodes() if isinstance(n.stmt, ast.Delete) and any(norm(t).startswith("plugins[") for t in n.stmt.targets)]
-    chk.check(bool(lb) and all(("loader", True) in cfg.guard_facts(n) for n in lb), "C11.R3", f, None, "loadable targets are not removed from the plugins to compute", site_text="check_cache: `del plugins[target_i]` on the loader branch")
-    ls = [n for n in cfg.stmt_nodes() if isinstance(n.stmt, ast.Assign) and any(isinstance(t, ast.Subscript) and norm(t.value) == "loaders" for t in n.stmt.targets)]
-    chk.check(bool(ls) and all(("loader", True) in cfg.guard_facts(n) for n in ls), "C11.R3", f, None, "loader not registered on the loader branch", site_text="check_cache: loaders[target_i] = loader on the loader branch")
+    lb = [n for n in cfg.stmt_nodes() if isinstance(n.stmt, ast.Delete) and any(norm(t).startswith(f"{PL}[") for t in n.stmt.targets)]
+    chk.check(bool(lb) and all((LD, True) in cfg.guard_facts(n) for n in lb), "C11.R3", f, None, "loadable targets are not removed from the plugins to compute", site_text="check_cache: `del plugins[target_i]` on the loader branch")
+    ls = [n for n in cfg.stmt_nodes() if isinstance(n.stmt, ast.Assign) and any(isinstance(t, ast.Subscript) and norm(t.value) == LDS for t in n.stmt.targets)]
+    chk.check(bool(ls) and all((LD, True) in cfg.guard_facts(n) for n in ls), "C11.R3", f, None, "loader not registered on the loader branch", site_text="check_cache: loaders[target_i] = loader on the loader branch")
     # seen-set: each target handled once
-    first = [n for n in cfg.stmt_nodes() if isinstance(n.stmt, ast.Return) and ("target_i in seen", True) in cfg.guard_facts(n)]
+    first = [n for n in cfg.stmt_nodes() if isinstance(n.stmt, ast.Return) and (f"target_i in {SEEN}", True) in cfg.guard_facts(n)]
     chk.check(bool(first), "C11.R3", f, None, "targets can be processed twice (no seen-set early return): duplicate savers / loaders", site_text="check_cache: early return for targets already seen")
     gc = repo.func("Context.get_components", CONTEXT)
     gcfg = cfg_of(gc)
-    inter = [n for n in gcfg.stmt_nodes() if isinstance(n.stmt, ast.Raise) and any("intersec" in t for t, p in gcfg.guard_facts(n))]
+    from ..pattern import facts_matching as _fm, find as _pf
+    inter = []
+    for n in gcfg.stmt_nodes():
+        if isinstance(n.stmt, ast.Raise):
+            for e, pol, g, b in _fm(gcfg, n, "len(L_x)", True):
+                if _pf(gc.node, f"{b['L_x']} = list({PL}.keys() & {LDS}.keys())"):
+                    inter.append(n)
     chk.check(bool(inter), "C11.R3", gc, None, "no error when a data type is both computed and loaded", site_text="get_components: raise if a type is both computed and loaded")
     # R4
     need = [
